@@ -76,7 +76,7 @@ mod vk_cloned {
         assert!(d == copy, "[C13 source-untouched] the source elements are neither modified nor moved");
     }
 
-    // @harness name=cloned_slice_queries props=C13 kind=bounded bound="source length <= 3; counter value over the full usize domain"
+    // @harness name=cloned_slice_queries props=C13,C06 kind=bounded bound="source length <= 3; counter value over the full usize domain"
     #[kani::proof]
     #[kani::unwind(6)]
     fn cloned_slice_queries() {
@@ -97,8 +97,8 @@ mod vk_cloned {
             x.skip_to_end();
             y.skip_to_end();
             kani::cover!(c < len, "skip with elements remaining");
-            assert!(x.counter().current() == y.counter().current(), "[C13 same-skip] skip_to_end acts on the adaptor as on the underlying iterator");
-            assert!(y.next().is_none() && y.try_get_len() == Some(0), "[C13 same-skip] after skip_to_end the adaptor reports the end");
+            assert!(x.counter().current() == y.counter().current(), "[C13 C06 same-skip] skip_to_end acts on the adaptor as on the underlying iterator");
+            assert!(y.next().is_none() && y.try_get_len() == Some(0), "[C13 C06 same-skip] after skip_to_end the adaptor reports the end");
         } else {
             let mut a = x.into_seq_iter();
             let mut b = y.into_seq_iter();
@@ -109,7 +109,7 @@ mod vk_cloned {
         assert!(d == copy, "[C13 source-untouched] the source elements are neither modified nor moved");
     }
 
-    // @harness name=cloned_iter_pulls props=C13 kind=bounded bound="wrapped iterator of references of length 3; up to 1 earlier single pull, optional skip_to_end, then one single / chunk(2) / buffered(2) pull (real atomics, sequential)"
+    // @harness name=cloned_iter_pulls props=C13,C06 kind=bounded bound="wrapped iterator of references of length 3; up to 1 earlier single pull, optional skip_to_end, then one single / chunk(2) / buffered(2) pull (real atomics, sequential)"
     #[kani::proof]
     #[kani::unwind(6)]
     fn cloned_iter_pulls() {
